@@ -46,7 +46,8 @@ PROPS = {
     },
     "C07": {
         "lean": ["PnaVerif.Props.Consts", "PnaVerif.Props.C07", "PnaVerif.Props.C07Solid"],
-        "families": ["parse", "entry", "codec", "truncate", "foreign", "hostile-solid"],
+        "families": ["parse", "entry", "codec", "truncate", "foreign", "hostile-solid", "cli-hostile"],
+        "cli": True,
         "trusted": COMMON_TRUST,
         "text": "no model read path reaches a panic outcome (proved for all inputs); hostile/mutated/truncated streams through the real readers under catch_unwind",
     },
